@@ -325,6 +325,7 @@ def run_shard(spec) -> Result:
             res.sample({"bit": [1, 0, 0, 0], "pixels": owners[0][4]})
     else:
         from .. import rust
+        base_pix = {}
         for sl in (0, 8, 17, 32, 63):
             out = rust.run("lcd", [{"id": 0, "ops": [["flipmap", sl]], "pixels": False}], timeout=1200)[0]
             owners = [(c, p, col, b, [tuple(x) for x in px]) for c, p, col, b, px in out["out"][0]["flipmap"]]
@@ -334,6 +335,25 @@ def run_shard(spec) -> Result:
                 if sl == 0:
                     res.nontrivial("rsflip", o[0], o[1], o[2], o[3])
             judge_map(res, owners, f"rs(start_line={sl})" if sl else "rs", complete=True)
+            # HD61202 "display start line" (Z): the RAM line shown at the top. A model that renders it at all must scroll
+            # by whole lines: the pixel that shows (chip, line l, column) under start line 0 shows (chip, (l+s) mod 64,
+            # column) under start line s. The layout itself is whatever the s=0 map says; a model that ignores the start
+            # line when rendering (all maps equal, as the Python one) is not judged.
+            pix = {}
+            for c, pg, col, b, px in owners:
+                for xy in px:
+                    pix.setdefault(tuple(xy), []).append((c, pg * 8 + b, col))
+            if sl == 0:
+                base_pix = pix
+            elif pix != base_pix:
+                bad = [(xy, base_pix[xy], pix.get(xy)) for xy in sorted(base_pix)
+                       if len(base_pix[xy]) == 1 and
+                       pix.get(xy) != [(base_pix[xy][0][0], (base_pix[xy][0][1] + sl) % 64, base_pix[xy][0][2])]]
+                res.monitor("rs_start_line_rotation", len(base_pix))
+                if bad:
+                    res.violation({"clause": "start_line_not_a_line_rotation", "model": "rs", "aligned": sl % 8 == 0},
+                                  {"start_line": sl, "pixels": [list(b[0]) for b in bad[:6]]},
+                                  {"count": len(bad), "first": repr(bad[0])[:200]})
     return res
 
 
